@@ -59,7 +59,7 @@ type checkCfg struct {
 	Rule          string            `json:"rule"`
 	Assumptions   []string          `json:"assumptions"`
 	BuildPkg      string            `json:"build_pkg"` // build this repo package (its in-package harness has an init hook) instead of internal/zzverif/<main>
-	TestPkg       string            `json:"test_pkg"` // build with `go test -c` in this repo package instead of a main package
+	TestPkg       string            `json:"test_pkg"`  // build with `go test -c` in this repo package instead of a main package
 	Race          []raceCfg         `json:"race"`
 	Env           map[string]string `json:"env"`
 	GoMaxProcs    int               `json:"gomaxprocs"`
@@ -359,6 +359,7 @@ func main() {
 	aborted := false // a shard stopped at a non-terminating execution (reported as a violation)
 	var tot struct {
 		scen, execs, cps, states, trans, distinct, distinctNT, selfchk int64
+		restarts, diverged                                             int64
 		maxDepth                                                       int
 		boundCompleted, boundMax                                       int
 		exhaustive                                                     bool
@@ -393,6 +394,8 @@ func main() {
 		tot.distinct += g("distinct")
 		tot.distinctNT += g("distinct_nontrivial")
 		tot.selfchk += g("determinism_selfchecks")
+		tot.restarts += g("restarts_after_warm_up")
+		tot.diverged += g("diverged_executions")
 		if int(g("max_depth")) > tot.maxDepth {
 			tot.maxDepth = int(g("max_depth"))
 		}
@@ -538,6 +541,8 @@ func main() {
 		"exhaustive":                    tot.exhaustive,
 		"counters":                      counters,
 		"determinism_selfchecks":        tot.selfchk,
+		"restarts_after_warm_up":        tot.restarts,
+		"diverged_executions":           tot.diverged,
 		"shards":                        n,
 		"explanation":                   "stateless exploration of the real implementation: every explored trace is an implementation trace",
 	}
@@ -728,10 +733,10 @@ func racePass(cfg checkCfg, checkDir, work, tier string, instrOv map[string]stri
 			}
 			seen[key] = true
 			viols = append(viols, map[string]any{
-				"scenario": "race-pass/" + rc.Pkg,
-				"choices":  []any{},
-				"failure":  map[string]any{"oracle": "race-free", "key": key, "msg": "data race reported by the free-running -race pass (unsynchronised access: behaviour is undefined for some schedule)\n" + firstLines(r, 40)},
-				"report":   r,
+				"scenario":   "race-pass/" + rc.Pkg,
+				"choices":    []any{},
+				"failure":    map[string]any{"oracle": "race-free", "key": key, "msg": "data race reported by the free-running -race pass (unsynchronised access: behaviour is undefined for some schedule)\n" + firstLines(r, 40)},
+				"report":     r,
 				"replay_cmd": fmt.Sprintf("VERIF_RACE_VERBOSE=1 bin/check %s %s   # re-runs the race pass; reports are in .work/%s/race%d.log.*", cfg.Property, tier, strings.ToLower(cfg.Property), i),
 			})
 		}
